@@ -132,6 +132,11 @@ func viewMarkdown(path string, exps []*sheetExp) (viewResult, string) {
 	if err != nil {
 		return viewResult{problem: "error", detail: err.Error()}, ""
 	}
+	return parseMarkdown(md, exps)
+}
+
+// parseMarkdown reads the "## <sheet>" sections of a workbook rendering; exps are the sheets expected, in order.
+func parseMarkdown(md string, exps []*sheetExp) (viewResult, string) {
 	type section struct {
 		name   string
 		tables [][]string // each table: its lines
